@@ -117,8 +117,16 @@ class _Connector:
                     self.last_error or IOError("connection failed")
                 )
             return
-        stream, future = self.connect(af, addr)
-        self.streams.add(stream)
+        try:
+            stream, future = self.connect(af, addr)
+        except OSError as e:
+            # The attempt could not even be started (e.g. the address
+            # family is not supported); treat it like a failed connection
+            # so that the remaining addresses are still tried.
+            future = Future()
+            future.set_exception(e)
+        else:
+            self.streams.add(stream)
         future_add_done_callback(
             future, functools.partial(self.on_connect_done, addrs, af, addr)
         )
@@ -315,9 +323,8 @@ class TCPClient:
                 raise
         try:
             stream = IOStream(socket_obj, max_buffer_size=max_buffer_size)
-        except OSError as e:
-            fu: Future[IOStream] = Future()
-            fu.set_exception(e)
-            return stream, fu
+        except OSError:
+            socket_obj.close()
+            raise
         else:
             return stream, stream.connect(addr)
